@@ -201,6 +201,13 @@ def apply_fn_subs(unit, item, pc, subs_for_fn, fnargs, owner, canary):
     """Apply rules to one fn item; returns rendered text."""
     _, kv = parse_kv(fnargs)
     rsx.rule_attrs(item, pc)
+    # R-XSTMTS first: the statement sequence it removes may contain log! statements
+    for (sk_, sargs_, lines_) in subs_for_fn:
+        if sk_ == "xstmts":
+            m_ = re.match(r'(\w+)\s+"(.*?)"\s+"(.*?)"$', " ".join(sargs_))
+            if not m_:
+                raise ExtractError("bad xstmts directive")
+            unit.xexprs[m_.group(1)] = rsx.rule_xstmts(item, pc, m_.group(2), m_.group(3), "\n".join(lines_).strip())
     if "xbody" not in fnargs:  # a dropped body needs no rewriting
         rsx.rule_log(item, pc)
         rsx.rule_refpat(item, pc)
@@ -232,6 +239,8 @@ def apply_fn_subs(unit, item, pc, subs_for_fn, fnargs, owner, canary):
             if not m:
                 raise ExtractError("bad xexpr directive")
             unit.xexprs[m.group(2)] = rsx.rule_xexpr(item, pc, m.group(3), m.group(1), all_occurrences=(sk == "xexpr_all"))
+        elif sk == "xstmts":
+            pass  # applied above, before R-LOG
         elif sk == "hoist":
             # hoist <loop ordinal> "<literal>" as <name>
             m = re.match(r'(\d+)\s+"(.*)"\s+as\s+(\w+)$', " ".join(sargs))
